@@ -1061,7 +1061,25 @@ func (w *c01World) syncJob() bool {
 // waitRunning waits until the job reports Running after deployment number `after` has completed
 func (w *c01World) waitRunning(after int) bool {
 	deadline := time.Now().Add(2 * c01Grace)
+	nudge := time.Now().Add(time.Second)
 	for time.Now().Before(deadline) {
+		if time.Now().After(nudge) {
+			// what keeps happening in a real installation: workers that stopped are started again by their supervisor
+			// and every live node's register poll fires again
+			nudge = time.Now().Add(time.Second)
+			w.mu.Lock()
+			need := w.cfg.n
+			for _, wk := range w.workers {
+				if !wk.killed.Load() {
+					need--
+				}
+			}
+			w.mu.Unlock()
+			for ; need > 0; need-- {
+				w.newWorker()
+			}
+			w.heartbeat()
+		}
 		w.mu.Lock()
 		dep := w.dep
 		job := w.job
